@@ -3,6 +3,7 @@ package props
 import (
 	"bytes"
 	"fmt"
+	"strconv"
 	"os"
 	"os/exec"
 	"path/filepath"
@@ -109,7 +110,7 @@ var c01Pinned = [][3]string{ // a, b, expected sign of a?b
 func splitText(s string) model.Ver {
 	var v model.Ver
 	if i := strings.IndexByte(s, ':'); i >= 0 {
-		fmt.Sscanf(s[:i], "%d", &v.Epoch)
+		v.Epoch, _ = strconv.ParseUint(s[:i], 10, 64)
 		s = s[i+1:]
 	}
 	if i := strings.LastIndexByte(s, '-'); i >= 0 {
